@@ -180,33 +180,79 @@ ListCallOK(B, A, c) ==
          ELSE IsErr(c) /\ A = B
     [] OTHER -> FALSE
 
-(* text, code-point aligned calls only (unit-level rules are C24's) *)
-TextCallOK(B, A, c) ==
+(* text: indexes and lengths are in the units of the document's text encoding (C24).  Tokens  *)
+(* are code points; an index is "aligned" when it falls on a code point boundary.  Calls with  *)
+(* unaligned indexes are only required to fail cleanly or succeed (their rounding is not part   *)
+(* of the property); the grapheme encoding, where widths are not per code point, is checked    *)
+(* by Trace_Interp only.                                                                        *)
+TokW(t) ==
+  IF enc = "u8" THEN (CASE t \in {"eacute", "cacute"} -> 2
+                        [] t \in {"euro", "zwj", "vs16", "objrepl"} -> 3
+                        [] t \in {"grin", "woman", "laptop"} -> 4
+                        [] OTHER -> 1)
+  ELSE IF enc = "u16" THEN (IF t \in {"grin", "woman", "laptop"} THEN 2 ELSE 1)
+  ELSE 1
+RECURSIVE CumW(_, _)
+CumW(text, k) == IF k = 0 THEN 0 ELSE CumW(text, k - 1) + TokW(text[k])
+AlignedK(text, u) == {k \in 0..Len(text) : CumW(text, k) = u}
+HasMat(o) == "mat" \in DOMAIN o
+MatOf(view, id) == LET o == view[CHOOSE i \in DOMAIN view : view[i].id = id] IN
+                   IF HasMat(o) THEN [u \in DOMAIN o.mat |-> S(o.mat[u])] ELSE <<>>
+
+TextCallOK(B, A, c, before, after) ==
   LET T == c.obj
       old == B[T].text
       n == B[T].len
   IN
   CASE c.fn = "splice_text" ->
-         IF enc = "cp" THEN
+         IF enc \in {"cp", "u8", "u16"} THEN
            LET at == IF c.del < 0 THEN c.idx + c.del ELSE c.idx
                dd == IF c.del < 0 THEN 0 - c.del ELSE c.del
+               to == IF at + dd > n THEN n ELSE at + dd
            IN
            IF c.idx <= n /\ at >= 0
-           THEN LET d == IF at + dd > n THEN n - at ELSE dd IN
-                /\ Ok(c) /\ T \in DOMAIN A
-                /\ A[T].text = SubSeq(old, 1, at) \o c.toks \o SubSeq(old, at + d + 1, Len(old))
-                /\ A[T].len = n - d + Len(c.toks)
-                /\ \A id \in DOMAIN A \ {T} : id \in DOMAIN B /\ A[id] = B[id]
+           THEN IF AlignedK(old, at) # {} /\ AlignedK(old, to) # {}
+                THEN LET ka == CHOOSE k \in AlignedK(old, at) : TRUE
+                         kb == CHOOSE k \in AlignedK(old, to) : TRUE
+                     IN /\ Ok(c) /\ T \in DOMAIN A
+                        /\ A[T].text = SubSeq(old, 1, ka) \o c.toks \o SubSeq(old, kb + 1, Len(old))
+                        /\ A[T].len = n - (to - at) + CumW(c.toks, Len(c.toks))
+                        /\ \A id \in DOMAIN A \ {T} : id \in DOMAIN B /\ A[id] = B[id]
+                ELSE IsErr(c) => A = B
            ELSE IsErr(c) /\ A = B
          ELSE IF IsErr(c) THEN A = B ELSE TRUE
     [] c.fn = "delete" /\ ~IsKey(c) ->
          \* delete(text, i) removes the character at i; an index past the end is an error
-         IF enc = "cp" THEN
+         IF enc \in {"cp", "u8", "u16"} THEN
            IF c.idx < n
-           THEN /\ Ok(c) /\ T \in DOMAIN A
-                /\ A[T].text = SubSeq(old, 1, c.idx) \o SubSeq(old, c.idx + 2, Len(old))
-                /\ A[T].len = n - 1
+           THEN IF AlignedK(old, c.idx) # {}
+                THEN LET ka == CHOOSE k \in AlignedK(old, c.idx) : TRUE IN
+                     /\ Ok(c) /\ T \in DOMAIN A
+                     /\ A[T].text = SubSeq(old, 1, ka) \o SubSeq(old, ka + 2, Len(old))
+                     /\ A[T].len = n - TokW(old[ka + 1])
+                ELSE IsErr(c) => A = B
            ELSE IsErr(c) /\ A = B
+         ELSE IF IsErr(c) THEN A = B ELSE TRUE
+    [] c.fn \in {"mark", "unmark"} ->
+         \* the new mark has the greatest id, so its value shows on exactly the units [start, end)
+         IF enc \in {"cp", "u8", "u16"} /\ HasMat(before[CHOOSE i \in DOMAIN before : before[i].id = T])
+         THEN IF c.start <= c.end /\ c.end <= n
+              THEN IF AlignedK(old, c.start) # {} /\ AlignedK(old, c.end) # {}
+                   THEN LET mb == MatOf(before, T)
+                            ma == MatOf(after, T)
+                            v == IF c.fn = "unmark" THEN [k |-> "null", s |-> "", n |-> 0, toks |-> <<>>] ELSE c.val
+                            upd(ms) == {m \in ms : m.name # c.name} \cup
+                                       (IF v.k = "null" THEN {} ELSE {[name |-> c.name, v |-> v]})
+                        IN /\ Ok(c) /\ T \in DOMAIN A
+                           /\ A[T].text = old /\ A[T].len = n
+                           /\ Len(ma) = Len(mb)
+                           /\ \A u \in DOMAIN mb :
+                                 ma[u] = IF u > c.start /\ u <= c.end THEN upd(mb[u]) ELSE mb[u]
+                           /\ \A id \in DOMAIN A \ {T} : id \in DOMAIN B /\ A[id] = B[id]
+                   ELSE IsErr(c) => A = B
+              ELSE IF c.start > c.end /\ c.start <= n
+                   THEN before = after      \* reversed range: an error or an empty result (C37)
+                   ELSE IsErr(c) /\ before = after
          ELSE IF IsErr(c) THEN A = B ELSE TRUE
     [] c.fn \in {"put", "put_object", "increment", "delete"} /\ IsKey(c) -> IsErr(c) /\ A = B
     [] c.fn \in {"insert", "splice"} -> IsErr(c) /\ A = B
@@ -220,7 +266,7 @@ CallOK(c) ==
            THEN IF IsKey(c) THEN MapCallOK(B, A, c) ELSE IsErr(c) /\ A = B
       ELSE IF B[c.obj].ty = "list"
            THEN IF IsKey(c) THEN IsErr(c) /\ A = B ELSE ListCallOK(B, A, c)
-      ELSE TextCallOK(B, A, c)
+      ELSE TextCallOK(B, A, c, c.before, c.after)
 
 Commit ==
   /\ l <= Len(Rec) /\ E.ev = "commit" /\ l' = l + 1
@@ -230,6 +276,8 @@ Commit ==
                 IsErr(E.calls[ci]) => E.calls[ci].before = E.calls[ci].after)
         /\ ChkC("C03", "call-has-sequential-effect", ci, CallOK(E.calls[ci]))
         /\ ChkC("C29", "isolated-call-acts-on-the-isolated-state", ci, Len(E.iso) > 0 => CallOK(E.calls[ci]))
+        /\ ChkC("C24", "call-indexes-are-in-encoding-units", ci, CallOK(E.calls[ci]))
+        /\ ChkC("C25", "mark-call-has-sequential-effect", ci, E.calls[ci].fn \in {"mark", "unmark"} => CallOK(E.calls[ci]))
   /\ \A ci \in 1..(Len(E.calls) - 1) :
         ChkC("C03", "reads-stable-between-calls", ci, E.calls[ci].after = E.calls[ci + 1].before)
   /\ Chk("C03", "committed-state-equals-last-transaction-view",
